@@ -34,11 +34,15 @@ REGISTRY = dict(
           "(polymorphic in the frame type), the stacked terminal observation is the same suffix of the episode that just ended; for every stack of wrappers "
           "(structural induction) rewards, dones and truncation flags pass through unchanged and the terminal observation equals what the same stack would return "
           "had it arrived as an ordinary observation; stacked/transposed shapes; compute_stacking axis/shape arithmetic regenerated from the source. "
-          "Tie: cell-by-cell correspondence of random wrapper stacks over Box/image/Dict scripted environments, membership in the declared space checked on every output."),
+          "Tie: cell-by-cell correspondence of random wrapper stacks over Box/image/Dict scripted environments, membership in the declared space checked on every output. "
+          "Round 5: windows and stacked terminal observations lie within the declared (np.repeat) bounds when the bounds contain 0 and do not vary along the stacking axis, within tiled bounds always; "
+          "VecCheckNan is the identity on finite data for every history and reports exactly the non-finite cells (nan; inf under check_inf)."),
     note=("Trusted: Coq 8.16.1 kernel (vm_compute, no native_compute), translate/py2coq.py + specs/stacking.py, harness/c17.py + scripted_envs.py, Python/numpy/gymnasium. "
           "The Box instance of the executable wrapper model is proved to run the abstract frame-stack (C17_box_window_is_episode_suffix); the Dict (per-key) instance, "
           "the numpy slicing/roll/concatenate/transposition code and 'observation belongs to the declared space' (observation_space.contains on every output) are tied by "
-          "correspondence only. Aliasing of returned arrays is decided under C19, episode statistics of VecMonitor under C18. Findings: none for C17 (F1, VecFrameStack returning its internal window, was repaired in /repo and is recorded under C19). All C17 theorems are closed under the global context."),
+          "correspondence only. Aliasing of returned arrays is decided under C19, episode statistics of VecMonitor under C18. Findings (round 5): the stacked space is declared with np.repeat of the base bounds, so (A) zero-padded slots whose element bounds exclude 0 and (B) bounds that vary along the stacking axis put returned observations outside the declared space "
+          "(Refuted/C17_zero_padding.v, Refuted/C17_repeat_bounds.v, reproduced from corpus inputs; every non-member is classified cell by cell, anything else is a violation); the positive bounds theorem needs both hypotheses. "
+          "VecCheckNan is modelled (Model/CheckNan.v) and tied by regenerated guards + correspondence with injected nan/inf. F1 (VecFrameStack returning its internal window) was repaired in /repo and is recorded under C19. All C17 theorems are closed under the global context."),
     technique="machine-checked proof in Coq (induction over histories and over wrapper stacks) + regenerated-fragment interface lemmas + differential correspondence + numpy oracle",
 )
 
@@ -253,6 +257,21 @@ def run_impl(case, ops=None):
             if not ok:
                 bad.append(where)
 
+        base_venv = venv
+        while getattr(base_venv, "venv", None) is not None:
+            base_venv = base_venv.venv
+
+        def check_reset_infos(where):
+            # F26 (repaired in /repo 4eef34e): the outermost wrapper must report the reset infos the sub-environments returned
+            # (C01's contract "reset_infos[i] holds the info of that reset", kept by every wrapper)
+            want = [lg for lg in base_venv.reset_infos]
+            try:
+                got = [lg for lg in venv.reset_infos]
+            except Exception as e:  # noqa: BLE001
+                got = f"{type(e).__name__}: {e}"
+            if got != want:
+                bad.append(f"reset_infos through the wrapper stack: {where}: the outermost wrapper reports {got}, the vectorized environment it wraps holds {want}")
+
         try:
             sd = case.get("seed_through_stack")
             if sd is not None:
@@ -266,6 +285,7 @@ def run_impl(case, ops=None):
                         if first != [("reset", sd + i, {"k": sd}) for i in range(n)]:
                             bad.append(f"seed/options set through the wrapper stack did not reach the sub-environments: {first}")
                     snap()
+                    check_reset_infos(f"after op {k} (reset)")
                     for i in range(n):
                         o = _one(obs, i)
                         check(o, f"op {k} reset env {i}")
@@ -273,6 +293,8 @@ def run_impl(case, ops=None):
                 else:
                     obs, rews, dones, infos = venv.step(np.array([a % 4 for a in op[1]]))
                     snap()
+                    if any(dones):
+                        check_reset_infos(f"after op {k} (step with an automatic reset)")
                     for i in range(n):
                         o = _one(obs, i)
                         check(o, f"op {k} step env {i}")
@@ -432,7 +454,7 @@ def oracle(case, impl, ops=None):
                     if not same(obs, want):
                         probs.append(("oracle-stacked-observation", f"{where}: observation is not the zero-padded last frames of the current episode"))
     for wbad in impl["inspace"][:3]:
-        probs.append(("oracle-seed-options-through-wrapper-stack" if wbad.startswith("seed/options") else "oracle-observation-not-in-declared-space", wbad))
+        probs.append(("oracle-seed-options-through-wrapper-stack" if wbad.startswith("seed/options") else "oracle-reset-infos-through-wrapper-stack" if wbad.startswith("reset_infos through") else "oracle-observation-not-in-declared-space", wbad))
     # declared space shape = what the wrappers were promised to produce (computed from the rules above)
     fkind, fleaves = case["final"]
     sp = impl["declared"]
@@ -700,14 +722,15 @@ def load_corpus():
 
 
 def main():
-    chk = Check("C17", groups=["stacking"])
+    chk = Check("C17", groups=["stacking", "checknan"])
     chk.build_props()
     from harness.c01_branchcov import BranchCov, summarize
 
     cov = BranchCov(['stable_baselines3/common/vec_env/stacked_observations.py', 'stable_baselines3/common/vec_env/vec_frame_stack.py', 'stable_baselines3/common/vec_env/vec_transpose.py', 'stable_baselines3/common/vec_env/vec_extract_dict_obs.py', 'stable_baselines3/common/vec_env/vec_monitor.py', 'stable_baselines3/common/vec_env/vec_check_nan.py', 'stable_baselines3/common/vec_env/base_vec_env.py', 'stable_baselines3/common/vec_env/__init__.py']) if BranchCov.enabled() else None
     if cov:
         cov.start()
-    cases = load_corpus()
+    corpus_all = load_corpus()
+    cases = [c for c in corpus_all if "stream" not in c]      # the round-5 streams (bounds, checknan) have their own corpus lines
     n_corpus = len(cases)
     n_gen = 350 if chk.tier == "quick" else 4000
     for k in range(n_gen):
@@ -761,8 +784,17 @@ def main():
     sync_stats = run_sync_stream(chk, 100 if chk.tier == "quick" else 1000) if not chk.violations else {}
     chk.notes["sync_and_unwrap_stream"] = sync_stats
     chk.notes["ill_typed_stacks_rejected"] = run_rejection_checks(chk) if not chk.violations else 0
-    chk.coverage["evaluations"] = len(cases) + sync_stats.get("sync", 0) + sync_stats.get("unwrap", 0)
-    chk.coverage["traces_validated_against_impl"] = len(cases) + sync_stats.get("sync", 0) + sync_stats.get("unwrap", 0)
+    # build round 5: declared bounds of the stacked space (two known findings, classified cell by cell) and VecCheckNan with injected nan / inf
+    from harness import c17_round5 as r5
+
+    bounds_stats = r5.run_bounds_stream(chk, [c for c in corpus_all if c.get("stream") == "bounds"], 150 if chk.tier == "quick" else 1500) if not chk.violations else {}
+    chk.notes["bounds_stream"] = bounds_stats
+    only_known = all(v["signature"] in (r5.SIG_PAD, r5.SIG_REP) for v in chk.violations)
+    nan_stats = r5.run_checknan_stream(chk, [c for c in corpus_all if c.get("stream") == "checknan"], 150 if chk.tier == "quick" else 1500) if only_known else {}
+    chk.notes["checknan_stream"] = nan_stats
+    extra = bounds_stats.get("cases", 0) + nan_stats.get("cases", 0)
+    chk.coverage["evaluations"] = len(cases) + sync_stats.get("sync", 0) + sync_stats.get("unwrap", 0) + extra
+    chk.coverage["traces_validated_against_impl"] = len(cases) + sync_stats.get("sync", 0) + sync_stats.get("unwrap", 0) + extra
     chk.coverage["distinct_nontrivial"] = len(distinct)
     chk.coverage["rule"] = ("random type-correct wrapper stacks (depth 1-4; VecFrameStack n_stack 1-5 with channels_order None/first/last or per key, VecTransposeImage incl. skip, "
                             "VecExtractDictObs, VecMonitor, VecCheckNan) over DummyVecEnv (n_envs 1-3) of scripted envs cycling through 14 base spaces (Box rank 1-4, rank-3 float / non-[0,255] uint8 boxes that are not images, HWC/CHW images, 3 Dict "
@@ -775,6 +807,9 @@ def main():
         "channels_order=None is resolved by the documented rule (image: channel axis = smallest dimension, first index wins; else last) in the harness, not read from the wrapper",
         "frames are constant-filled with a non-zero tag (zero = padding); the per-kind numpy code is tied to the model cell by cell on these inputs only",
         "aliasing of the returned arrays (C19) and VecMonitor episode statistics (C18) are not decided here",
+        "round 5 bounds stream: integer-valued bounds and frames (exact in every dtype used); a returned observation outside the declared space is attributed to a known finding only when EVERY offending cell "
+        "is (A) a zero-padded slot holding 0 whose element bounds exclude 0 or (B) inside its own element's bounds while the declared bounds are the repeated (not tiled) base bounds",
+        "round 5 VecCheckNan stream: the first reset is finite (the step_async report reads self._observations, set only once a reset()/step_wait() has returned through the wrapper); dones are never non-finite",
         "stacks containing VecNormalize are checked against the numpy oracle only (flags unchanged, rewards transformed by the normaliser only, observations and terminal "
         "observations through one function with the statistics after the step, rel 1e-5); the statistics themselves are C15's",
     ]
@@ -787,6 +822,10 @@ def main():
 def replay(path):
     d = json.load(open(path))
     case = d["replay"]["case"]
+    if "stream" in case:
+        from harness import c17_round5 as r5
+
+        return r5.replay_case(case)
     im = run_impl(case)
     probs = oracle(case, im)
     if any(w["w"] == "normalize" for w in case["wrappers"]):
